@@ -1,8 +1,8 @@
 """C19 - send() writes the encoder's packets contiguously; bad messages are harmless.
 
-Stateless exploration on the virtual loop.  (A) 2-3 concurrent send() calls x every pattern of
-the transport suspending / not suspending each write (binary choice per write, resumed when
-nothing else can run); (B) unencodable messages sent at every loop boundary of a session;
+Stateless exploration on the virtual loop.  (A) 2-3 concurrent send() calls - good messages, and
+an unencodable one before / between / after two good ones - x every pattern of the transport
+suspending / not suspending each write (binary choice per write, resumed when nothing else can run); (B) unencodable messages sent at every loop boundary of a session;
 (C) a failing write at each packet index, and a reset placed at every boundary of a fully
 back-pressured send."""
 from __future__ import annotations
@@ -17,6 +17,9 @@ ID = "C19"
 
 MSGS = {"iso": clientkit.iso_request_message, "hdg": lambda: clientkit.heading_message(66),
         "gnss": clientkit.gnss_message, "fast2": clientkit.fast2_message}
+# messages the encoder refuses: sent among good ones they must write nothing and leave the others' packets contiguous
+BAD = {"bad_range": lambda: clientkit.bad_messages()["out_of_range"], "bad_missing": lambda: clientkit.bad_messages()["missing_field"]}
+ALL_MSGS = dict(MSGS, **BAD)
 SEND_KINDS = ("ebyte", "yd", "waveshare")
 CONFIG_WRITES = {"waveshare": 1}
 
@@ -31,7 +34,13 @@ def encode_ref(kind, enc, msg):
 
 def expected_packets(kind, names):
     enc = NMEA2000Encoder()
-    return [list(encode_ref(kind, enc, MSGS[n]())) for n in names]
+    out = []
+    for n in names:
+        try:
+            out.append(list(encode_ref(kind, enc, ALL_MSGS[n]())))
+        except ValueError:
+            out.append([])
+    return out
 
 
 # ------------------------------------------------------------------ part A
@@ -42,9 +51,9 @@ def run_a(kind, names, mode, mask):
         gw.pause_policy = lambda idx: idx >= skip and (mask >> (idx - skip)) & 1 == 1
     script = [it_connect]
     if mode == "together":
-        script.append(it_send_many([MSGS[n] for n in names]))
+        script.append(it_send_many([ALL_MSGS[n] for n in names]))
     else:
-        script += [it_send(MSGS[n], name=f"send-{n}") for n in names]
+        script += [it_send(ALL_MSGS[n], name=f"send-{n}") for n in names]
     sess, o = vloop.run_session(kind=kind, script=script, setup=setup)
     return sess, o
 
@@ -252,6 +261,16 @@ def plan(ctx):
             ta.append((kind, tr, "together", None if (ctx.thorough or "gnss" not in tr) else 2))
             if ctx.thorough:
                 ta.append((kind, tr, "staggered", None))
+        # an unencodable message started before, between or after two good ones
+        for bad in BAD:
+            for g1, g2 in itertools.permutations(names, 2):
+                if not ctx.thorough and (bad == "bad_missing" or "gnss" in (g1, g2)) and not (g1, g2) == ("gnss", "fast2"):
+                    continue
+                for pos in range(3):
+                    tr = [g1, g2]
+                    tr.insert(pos, bad)
+                    for mode in ("together", "staggered"):
+                        ta.append((kind, tuple(tr), mode, None if (ctx.thorough or "gnss" not in tr) else 3))
     for kind in vloop.KINDS:
         bads = ["missing_field", "out_of_range", "unknown_pgn"] + (["good_on_actisense"] if kind == "actisense" else [])
         for b in bads:
@@ -286,7 +305,7 @@ def run(ctx):
     cov = {
         "states": runs, "transitions": runs, "traces_validated_against_impl": runs, "evaluations": runs,
         "distinct_nontrivial": nontriv, "distinct_outcomes": outcomes,
-        "rule": "A: one execution per (client, ordered set of 2-3 concurrent sends, start mode, subset of writes at which the transport "
+        "rule": "A: one execution per (client, ordered set of 2-3 concurrent sends incl. triples with one unencodable message, start mode, subset of writes at which the transport "
                 "applies back-pressure); B: an unencodable message sent at every loop boundary of a session; C: a failing write at each "
                 "packet index and a reset at every boundary of a back-pressured send. Non-trivial = at least one write suspended (A), "
                 "send landing while a writer exists (B), all (C)",
